@@ -166,6 +166,8 @@ enum Outcome {
     Has(Result<bool, String>),
     Get(Result<Option<String>, String>),
     Query(QueryOutcomeC),
+    Stats(Result<[u64; 4], String>),
+    Synced(Result<(), String>),
 }
 
 #[derive(Clone, Debug, PartialEq)]
@@ -217,6 +219,19 @@ fn exec_op(store: &Store, op: &Op, enc: &BTreeMap<B32, OwnedEvent>) -> Outcome {
             QueryOutcome::OtherErr(e) => QueryOutcomeC::OtherErr(e),
             QueryOutcome::Panic(p) => QueryOutcomeC::Panic(p),
         }),
+        Op::Stats => Outcome::Stats(match real::catch(|| store.stats()) {
+            Ok(Ok(st)) => {
+                let s = &st.index_stats;
+                Ok([s.i_index_entries, s.ci_index_entries, s.ac_index_entries, s.akc_index_entries])
+            }
+            Ok(Err(e)) => Err(real::err_name(&e.inner)),
+            Err(p) => Err(format!("PANIC:{p}")),
+        }),
+        Op::Sync => Outcome::Synced(match real::catch(|| store.sync()) {
+            Ok(Ok(())) => Ok(()),
+            Ok(Err(e)) => Err(real::err_name(&e.inner)),
+            Err(p) => Err(format!("PANIC:{p}")),
+        }),
         _ => Outcome::Removed(Ok(())),
     }
 }
@@ -227,6 +242,8 @@ fn outcome_label(o: &Outcome) -> String {
         Outcome::Removed(r) => format!("{:?}", r),
         Outcome::Has(r) => format!("{:?}", r),
         Outcome::Get(r) => format!("{:?}", r),
+        Outcome::Stats(r) => format!("{:?}", r),
+        Outcome::Synced(r) => format!("{:?}", r),
         Outcome::Query(QueryOutcomeC::Ok(ids, red)) => format!("Ok([{}], redacted={red})", ids.iter().map(short).collect::<Vec<_>>().join(",")),
         Outcome::Query(q) => format!("{:?}", q),
     }
@@ -260,6 +277,8 @@ fn model_step(m: &mut Model, op: &Op, out: &Outcome, enc: &BTreeMap<B32, OwnedEv
             true
         }
         (Op::Has(id), Outcome::Has(Ok(b))) => m.retrievable.contains(id) == *b,
+        (Op::Stats, Outcome::Stats(Ok(c))) => c.iter().all(|x| *x == m.retrievable.len() as u64),
+        (Op::Sync, Outcome::Synced(Ok(()))) => true,
         (Op::Get(id), Outcome::Get(Ok(v))) => {
             if m.retrievable.contains(id) {
                 let want = enc.get(id).map(|e| bytes_val(e.as_bytes()));
@@ -402,9 +421,10 @@ pub fn generate(rs: u64, focus: &str) -> Trace {
             }
             if g.rng.chance(1, 2) {
                 let t = g.rng.usize(nthreads);
-                let op = match g.rng.below(3) {
+                let op = match g.rng.below(4) {
                     0 => Op::Has(e.id),
                     1 => Op::Get(e.id),
+                    2 => Op::Stats,
                     _ => Op::Query(QuerySpec { ids: vec![e.id], ..QuerySpec::all_allowed() }),
                 };
                 let pos = g.rng.usize(threads[t].len() + 1);
@@ -516,6 +536,12 @@ pub fn generate(rs: u64, focus: &str) -> Trace {
                     threads[t].push(Op::Store(e));
                 }
             }
+            // somebody syncs / reads the statistics meanwhile
+            if g.rng.chance(1, 2) {
+                let t = g.rng.usize(nthreads);
+                let pos = g.rng.usize(threads[t].len() + 1);
+                threads[t].insert(pos, if g.rng.chance(1, 2) { Op::Sync } else { Op::Stats });
+            }
             // somebody holds a reference to an early event while the others append, and reads
             // an early event back at the end
             if let Some(id) = retr.first().copied() {
@@ -573,6 +599,10 @@ pub fn generate(rs: u64, focus: &str) -> Trace {
             for t in 0..nthreads {
                 let n = 1 + g.rng.usize(if crate::gen::thorough() { 4 } else { 3 });
                 for _ in 0..n {
+                    if g.rng.chance(1, 7) {
+                        threads[t].push(if g.rng.chance(2, 3) { Op::Stats } else { Op::Sync });
+                        continue;
+                    }
                     let op = match g.rng.weighted(&[35, 15, 10, 10, 8, 8, 14]) {
                         0 => Op::Store(g.new_event()),
                         1 => Op::Store(g.new_version()),
@@ -714,13 +744,26 @@ pub fn run_conc_full(trace: &Trace, scratch: PathBuf, verbose: bool, known_open:
         let f = |id: &B32| enc.get(id).map(|e| e.as_bytes().to_vec());
         let real_o = obs::observe_real(&store, &model, &opts, 0);
         let exp = obs::observe_model(&model, &f, &opts, 0);
-        if obs::first_diff(&exp, &real_o).is_some() {
-            // the sequential base already disagrees with the model: other properties' business
+        if let Some((k, w, g)) = obs::first_diff(&exp, &real_o) {
+            // the sequential base history already disagrees with the model: whatever serial
+            // order the threads take, the answers cannot be those of the model either
             stats.inc("conc/base_mismatch");
+            let detail = format!("already the sequential base history of this schedule deviates: probe {} shows {} but the model requires {}", crate::exec::shorten_key(k), g, w);
+            let kind = k.split('/').next().unwrap_or("");
+            let mut props: Vec<&'static str> = vec!["C14"];
+            match kind {
+                "repl" | "prepl" => props.push("C09"),
+                "delid" | "deladdr" => props.push("C11"),
+                "count" => props.push("C17"),
+                _ => {
+                    props.push("C04");
+                    props.push("C09");
+                }
+            }
             let _ = real::catch(|| store.verif_close());
             let _ = std::fs::remove_dir_all(&scratch);
             pocket_types::verif_clock::set(None);
-            return finish(None, stats, log, 1, trace.ops.len(), vec![]);
+            return finish(Some(Finding { clause: "base-history-differs".into(), props, detail, op_index: 0 }), stats, log, 1, trace.ops.len(), vec![]);
         }
     }
 
@@ -1041,7 +1084,7 @@ pub fn run_conc_full(trace: &Trace, scratch: PathBuf, verbose: bool, known_open:
     if finding.is_none() {
         for r in &sorted {
             let bad = match &r.out {
-                Outcome::Has(Err(e)) | Outcome::Get(Err(e)) | Outcome::Removed(Err(e)) => Some(e.clone()),
+                Outcome::Has(Err(e)) | Outcome::Get(Err(e)) | Outcome::Removed(Err(e)) | Outcome::Stats(Err(e)) | Outcome::Synced(Err(e)) => Some(e.clone()),
                 Outcome::Query(QueryOutcomeC::OtherErr(e)) | Outcome::Query(QueryOutcomeC::Panic(e)) => Some(e.clone()),
                 Outcome::Store(StoreOutcome::Panic(p)) | Outcome::Store(StoreOutcome::Other(p)) => Some(p.clone()),
                 _ => None,
